@@ -4040,6 +4040,13 @@ EmitX86M:
   ASMJIT_ASSERT(rm_rel->op_type() == OperandType::kMem);
   ASMJIT_ASSERT((opcode & Opcode::kCDSHL_Mask) == 0);
 
+  // FWAIT (9B) of FSAVE|FSTCW|FSTENV|FSTSW is an instruction of its own, it has to precede all prefixes that
+  // belong to the x87 instruction that follows it (segment override, address-size override, and REX).
+  if ((opcode.v & Opcode::kPP_FPUMask) == Opcode::kPP_9B) {
+    writer.emit8(0x9B);
+    opcode &= ~uint32_t(Opcode::kPP_FPUMask);
+  }
+
   // Emit override prefixes.
   rm_info = mem_info_table[rm_rel->as<Mem>().base_and_index_types()];
   writer.emit_segment_override(rm_rel->as<Mem>().segment_id());
